@@ -50,7 +50,19 @@ def gen(rng, tier):
     n = 30000 if tier == "thorough" else 1200
     cases = []
     for _ in range(n):
-        cases.append({"formula": _formula(rng), "frame": gen_dm.make_frame(rng), "na": "drop", "kind": "random"})
+        fr = gen_dm.make_frame(rng)
+        kind = "random"
+        if rng.random() < 0.25:
+            # incomplete rows are removed by POSITION; what is left still holds what its labels say
+            nrows = len(fr["columns"][0]["values"])
+            for col in fr["columns"]:
+                if col["name"] in ("x", "w", "y") and rng.random() < 0.6:
+                    for r in rng.sample(range(nrows), rng.randint(1, max(1, nrows // 6))):
+                        col["values"][r] = None
+            if rng.random() < 0.6:
+                fr["index"] = [j % 4 for j in range(nrows)]
+            kind = "with-missing"
+        cases.append({"formula": _formula(rng), "frame": fr, "na": "drop", "kind": kind})
     fixed = ["y ~ f:g", "y ~ g:f", "y ~ 0 + f:g:h", "y ~ x:f", "y ~ f:x", "y ~ 0 + h:x:f", "y ~ f/g", "y ~ 0 + (f + g)*h",
              "y ~ (0 + f | g + h) + (1 | g)", "y ~ (x | g:h)", "y ~ C(k):o", "y ~ o + c", "f ~ x", "y ~ (f | C(k))"]
     for f in fixed:
@@ -75,6 +87,11 @@ def _oracle(c):
     except Exception:
         return None  # rejected formulas are not this property's business
     df = dm.to_pandas(c["frame"])
+    if c.get("kind") == "with-missing":
+        # the observations a design is about: complete in the variables the formula uses (read off the text)
+        names = set(re.findall(r"[A-Za-z_][A-Za-z_0-9]*", c["formula"]))
+        used = [v for v in df.columns if v in names]
+        df = df[~df[used].isna().any(axis=1).to_numpy()].reset_index(drop=True)
     if d.common is not None:
         try:
             cdf = d.common.as_dataframe()
